@@ -2,7 +2,8 @@
 for the current /repo sources (the checks would do it themselves otherwise)."""
 import sys
 
-sys.path.insert(0, "/verif")
+import os
+sys.path.insert(0, os.environ.get("VERIF_ROOT") or os.path.dirname(os.path.dirname(os.path.abspath(__file__))))
 from mc import framework as fw
 
 fw.pin_env("1")
